@@ -60,7 +60,7 @@ CLAIM = dict(
          "(from load_total_of_guarded; decoder_sites_guarded and no_unguarded_sites re-prove from the source on every run that each "
          "decoder call is under a handler covering its exception set, load_shape the statement order); "
          "load_sound - load(write(ck, code)) is a hit with exactly code iff ck is the current source's checksum, any "
-         "other checksum a miss; foreign_magic_miss, short_entry_miss; fs_fault_safe - an exception at any step of dump_bytecode leaves the old entry, no temporary and propagates unless it is an OSError from os.replace; fs_crash_safe - after every prefix of dump_bytecode's "
+         "other checksum a miss; foreign_magic_miss, short_entry_miss; magic_depends_on_interpreter - bc_magic is computed from sys.version_info[0], sys.version_info[1] and bc_version (expression read from the source); fs_fault_safe - an exception at any step of dump_bytecode leaves the old entry, no temporary and propagates unless it is an OSError from os.replace; fs_crash_safe - after every prefix of dump_bytecode's "
          "operations (read from the source: temporary beside the entry, writes, close, os.replace), from every prior directory, the "
          "entry's name holds its previous content or the complete new entry, nothing else but the temporary changes and the "
          "temporary's name differs from the entry's; memcache_errors - with ignore_memcache_errors a failing client is a miss, "
@@ -80,7 +80,10 @@ CLAIM = dict(
          "case, line order, with keep_trailing_newline on and off, judged against a cache-less compile; the injectivity hypothesis on "
          "the checksum is validated on these edit classes: load_shape re-proves that get_source_checksum is SHA-1 of the whole "
          "unmodified source, and every pair of ~32 such variants of 6 sources must have distinct checksums (C27:checksum:collision); "
-         "7 option pairs sharing a directory. File-system errors: replace_oserror_is_miss / no_replace_escapes - for EVERY exception with "
+         "7 option pairs sharing a directory. Foreign interpreter: a child process reloads the real bccache module under a patched "
+         "sys.version_info (3.x-1, 3.x+1, 3.9, 3.14, 2.7, 4.0), lets it compute its own bc_magic and write an entry with marker code "
+         "under the right key and checksum; loading it here must be a miss (control: the same under the own version is a hit). "
+         "File-system errors: replace_oserror_is_miss / no_replace_escapes - for EVERY exception with "
          "OSError among its bases a failing os.replace leaves dump_bytecode normally with the old entry and no temporary (handlers read "
          "from the source); open_obstacles_are_misses - a missing entry, a directory at the entry's path, an unreadable entry are misses "
          "in load_bytecode. Tie: 15 OSError classes/errnos (+KeyboardInterrupt) injected into get_template at every file operation of "
@@ -1017,6 +1020,103 @@ def run_fs_faults(ctx, res, jinja2, root, stats):
 
 
 # ------------------------------------------------------------------------------------------------------------------
+# (b3) an entry written by another interpreter version, produced the way that interpreter would produce it
+# ------------------------------------------------------------------------------------------------------------------
+
+FOREIGN_CHILD = r"""
+import importlib, json, sys
+sys.dont_write_bytecode = True
+src_path, cache_dir, name, current_src, marker_src, versions = json.loads(sys.argv[1])
+sys.path.insert(0, src_path)
+import jinja2, jinja2.bccache
+real_vi = sys.version_info
+
+class VI(tuple):
+    major = property(lambda s: s[0]); minor = property(lambda s: s[1]); micro = property(lambda s: s[2])
+    releaselevel = property(lambda s: s[3]); serial = property(lambda s: s[4])
+
+out = {}
+for label, ver in versions:
+    import os
+    d = os.path.join(cache_dir, label)
+    os.mkdir(d)
+    if ver is not None:
+        sys.version_info = VI((ver[0], ver[1], 0, "final", 0))
+    try:
+        bc = importlib.reload(jinja2.bccache)      # the real module computes its own bc_magic as that interpreter would
+    finally:
+        sys.version_info = real_vi
+    env = jinja2.Environment()
+    cache = bc.FileSystemBytecodeCache(d)
+    bucket = bc.Bucket(env, cache.get_cache_key(name, None), cache.get_source_checksum(current_src))
+    bucket.code = env.compile(marker_src, name, None)        # other code under the right key and checksum
+    cache.dump_bytecode(bucket)
+    out[label] = bc.bc_magic.hex()
+print(json.dumps(out))
+"""
+
+
+def run_foreign_interpreter(ctx, res, jinja2, root, stats):
+    import subprocess
+    import sys
+    bc = jinja2.bccache
+    cur = tuple(sys.version_info[:2])
+    current_src, marker_src = "CURRENT {{ x }}", "MARKER-FROM-FOREIGN-ENTRY {{ x }}"
+    versions = [["same-interpreter", None]] + [[f"py{a}.{b}", [a, b]] for a, b in
+                                               [(3, cur[1] - 1), (3, cur[1] + 1), (3, 9), (3, 14), (2, 7), (4, 0)] if (a, b) != cur]
+    base = tempfile.mkdtemp(dir=root)
+    arg = json.dumps([str(core.REPO / "src"), base, NAME, current_src, marker_src, versions])
+    p = subprocess.run([sys.executable, "-B", "-c", FOREIGN_CHILD, arg], capture_output=True, text=True, timeout=600)
+    if p.returncode != 0:
+        raise core.HarnessError("foreign-interpreter child failed: " + p.stderr[-1500:])
+    magics = json.loads(p.stdout.strip().split("\n")[-1])
+    want = jinja2.Environment().from_string(current_src).render(x="<")
+    marker = jinja2.Environment().from_string(marker_src).render(x="<")
+    seen, outcome = set(), {}
+    cases = []
+    for label, ver in versions:
+        d = os.path.join(base, label)
+        files = os.listdir(d)
+        data = open(os.path.join(d, files[0]), "rb").read() if len(files) == 1 else b""
+        ck = bc.BytecodeCache().get_source_checksum(current_src)
+        bk = bc.Bucket(jinja2.Environment(), "k", ck)
+        try:
+            bk.load_bytecode(io.BytesIO(data))
+            unit = 0 if bk.code is None else 2
+        except BaseException:  # noqa
+            unit = 3
+        env = jinja2.Environment(loader=jinja2.DictLoader({NAME: current_src}), bytecode_cache=jinja2.FileSystemBytecodeCache(d),
+                                 cache_size=0)
+        try:
+            out = env.get_template(NAME).render(x="<")
+        except BaseException as e:  # noqa
+            out = "raised " + type(e).__name__
+        cases.append((label, ver, magics.get(label), unit, out))
+    vreps = core.driver_batch([[Atom("bc-verdict"), Atom("foreign-magic"), c[3], True] for c in cases if c[1] is not None])
+    vi = iter(vreps)
+    for label, ver, magic, unit, out in cases:
+        seen.add(("foreign-interpreter", label))
+        outcome[label] = {"bc_magic": magic, "load_bytecode": ["miss", None, "hit", "raises"][unit], "get_template": out}
+        replay = {"layer": "foreign-interpreter", "version": ver, "bc_magic_of_that_interpreter": magic, "own_bc_magic": bc.bc_magic.hex()}
+        if ver is None:
+            # control: the forged entry is a real, loadable entry (otherwise the probe below would be vacuous)
+            if out != marker:
+                res.violate("C27:foreign-interpreter:control",
+                            f"an entry written by the child under the SAME interpreter version is not used (get_template renders {out!r}): "
+                            "the probe cannot tell a foreign entry from a useless one", replay, no_input=True)
+            continue
+        verdict = str(next(vi)[1])
+        if verdict == "violated" or out != want:
+            res.violate(f"C27:foreign-interpreter:{label}",
+                        f"a cache entry written by CPython {ver[0]}.{ver[1]} (its own bc_magic {magic}, this interpreter's {bc.bc_magic.hex()}) "
+                        f"for the same template and checksum is not treated as a miss: Bucket.load_bytecode gives "
+                        f"{outcome[label]['load_bytecode']}, get_template renders {out!r} instead of {want!r} (compiled from the current source)",
+                        replay)
+    stats["foreign_interpreter"] = outcome
+    return seen
+
+
+# ------------------------------------------------------------------------------------------------------------------
 # (c) histories
 # ------------------------------------------------------------------------------------------------------------------
 
@@ -1519,6 +1619,7 @@ def run(ctx, res):
         s2 = run_write_path(ctx, res, jinja2, root, stats)      # first: forks are cheap while the process is small
         t.append(time.monotonic())
         s6 = run_fs_faults(ctx, res, jinja2, root, stats)
+        s6 |= run_foreign_interpreter(ctx, res, jinja2, root, stats)
         s1 = run_unit(ctx, res, jinja2, stats)
         t.append(time.monotonic())
         s3 = run_histories(ctx, res, jinja2, root, stats)
@@ -1579,6 +1680,11 @@ def replay(ctx, case):
             res = core.Result()
             run_shared(ctx, res, jinja2, root, {})
             return {"violations": [[v.key, v.what] for v in res.violations]}
+        if c.get("layer") == "foreign-interpreter":
+            res = core.Result()
+            st = {}
+            run_foreign_interpreter(ctx, res, jinja2, root, st)
+            return {"violations": [[v.key, v.what] for v in res.violations], "outcomes": st.get("foreign_interpreter")}
         if c.get("layer") in ("fs-fault", "fs-obstacle"):
             res = core.Result()
             st = {}
